@@ -3,6 +3,8 @@
 package grpcgcp
 
 import (
+	"sync/atomic"
+
 	"google.golang.org/grpc/balancer"
 	"google.golang.org/grpc/connectivity"
 )
@@ -138,4 +140,21 @@ func VerifH_rrwin() {
 	}
 	verifAssert(gb.scStates != nil && connectivity.Ready == 2, "sanity")
 	verifObserve("cursor", uint64(gb.rrRefId))
+}
+
+// Native replay of runs made with the atomicHavoc flag: an atomic load in the code under test
+// observes the value the solver chose for it - other goroutines advanced the cell meanwhile (the
+// rewrite of atomic.Load* to these functions is applied to the replay build only).
+func verifAtomicLoadU32(p *uint32) uint32 {
+	if verifFlag("atomicHavoc") {
+		return verifU32("atomicLoad@")
+	}
+	return atomic.LoadUint32(p)
+}
+
+func verifAtomicLoadI32(p *int32) int32 {
+	if verifFlag("atomicHavoc") {
+		return verifI32("atomicLoad@")
+	}
+	return atomic.LoadInt32(p)
 }
